@@ -409,7 +409,13 @@ def mon_seq_cst(case, lines):
     return None
 
 
-MONITORS = {'fault': mon_fault, 'handle_untouched': mon_handle_untouched, 'reads_monotone': mon_reads_monotone,
+def mon_new_reader_delays_writer(case, lines):
+    """C14: a reader that starts while the writer already drains counter k must register in the other counter"""
+    import lrmon
+    return lrmon.new_reader_delays_writer(lines, LOCKS, (MODIFY,))
+
+
+MONITORS = {'new_reader_delays_writer': mon_new_reader_delays_writer, 'fault': mon_fault, 'handle_untouched': mon_handle_untouched, 'reads_monotone': mon_reads_monotone,
             'read_after_modify': mon_read_after_modify, 'serial': mon_serial, 'reader_mutex': mon_reader_mutex,
             'lock_shared_steps': mon_lock_shared_steps, 'progress': mon_progress, 'exn_lock': mon_exn_lock,
             'seq_cst': mon_seq_cst}
